@@ -25,12 +25,19 @@ class BooleanOp(PureExec):
         else:
             PureExec.__init__(self, name, [a], bool_type)
 
+    @staticmethod
+    def is_truth_value(op: Pure) -> bool:
+        """Comparisons, logical operations and folded constants of them are booleans already."""
+        return (
+            isinstance(op, BooleanOp)
+            or isinstance(op, CompareOp)
+            or bool(op.value_type.group & VTGroup.BOOL)
+        )
+
     def il_exec(self):
         a = (
             self.ops[0].il_read()
-            if (
-                isinstance(self.ops[0], BooleanOp) or isinstance(self.ops[0], CompareOp)
-            )
+            if self.is_truth_value(self.ops[0])
             else f"NON_ZERO({self.ops[0].il_read()})"
         )
         if self.op_type == BooleanOpType.INV:
@@ -38,9 +45,7 @@ class BooleanOp(PureExec):
 
         b = (
             self.ops[1].il_read()
-            if (
-                isinstance(self.ops[1], BooleanOp) or isinstance(self.ops[1], CompareOp)
-            )
+            if self.is_truth_value(self.ops[1])
             else f"NON_ZERO({self.ops[1].il_read()})"
         )
         if self.op_type == BooleanOpType.AND:
